@@ -44,6 +44,7 @@ type stage struct {
 	Note   string
 	Extra  func(fr *FuncRun, st *stageCtx) ([]*Term, []CaseGoal) // extra assumptions and goals (cuts)
 	Space  string // description of the enumerated domain
+	NoSafetyGoals bool // floating-point safety obligations are goals of a sibling stage
 }
 
 type stageCtx struct {
@@ -140,7 +141,7 @@ func (cc *CheckCtx) runStage(s stage) {
 	var goals []CaseGoal
 	assumes := append([]*Term(nil), fr.VC.Assumes...)
 	for _, o := range fr.VC.Obligs {
-		if hasFP(o.Cond) && (re.MatchString(o.Name) || o.Kind == "safety") {
+		if hasFP(o.Cond) && (re.MatchString(o.Name) || (o.Kind == "safety" && !s.NoSafetyGoals)) {
 			goals = append(goals, CaseGoal{Name: o.Name, Kind: o.Kind, Cond: o.Cond})
 		}
 	}
